@@ -72,7 +72,7 @@ def norm_module(m):
         d.setdefault("mode", "active")
         d.setdefault("offset", ["i32.const", [0, 0, 0, 0]])
     n.setdefault("elems", [])
-    n.setdefault("exports", [])
+    n["exports"] = [{k: v_ for k, v_ in x.items() if k != "wire_name"} for x in n.get("exports", [])]
     if n.get("start") is None:
         n["start"] = -1
     n.pop("names", None)
@@ -101,6 +101,8 @@ def enc_module(m):
             im["name"] = {"bytes": wasm_encode.name_bytes(im["wire_name"] if not isinstance(im["wire_name"], list) else {"bytes": im["wire_name"]})}
         imps.append(im)
     e["imports"] = imps
+    # exports may carry the bytes of their name in the binary separately ("wire_name"), like imports
+    e["exports"] = [dict(x, name={"bytes": list(x["wire_name"])}) if "wire_name" in x else x for x in e.get("exports", [])]
     if e.get("start", -1) is not None and e.get("start", -1) < 0:
         e["start"] = None
     return e
